@@ -322,18 +322,18 @@ Qed.
 
 (* where a dependency word may end: end of input, a blank, or a newline *)
 Definition dep_tail (t : bytes) : bool :=
-  match t with [] => true | c :: _ => (c =? 32) || (c =? 10) end.
+  match t with [] => true | c :: _ => (c =? 32) || (c =? 10) || (c =? 13) end.
 
 Lemma dep_tail_lex t : dep_tail t = true -> lex_word t = ([], t).
 Proof.
-  destruct t as [|c r]; [reflexivity|]. cbn [dep_tail]. intros H. apply orb_true_iff in H.
-  destruct H as [H|H]; apply N.eqb_eq in H; subst c; reflexivity.
+  destruct t as [|c r]; [reflexivity|]. cbn [dep_tail]. intros H. rewrite !orb_true_iff in H.
+  destruct H as [[H|H]|H]; apply N.eqb_eq in H; subst c; reflexivity.
 Qed.
 
 Lemma dep_tail_colon t F : dep_tail t = true -> colon_loop (S F) t = Some ([], t).
 Proof.
-  destruct t as [|c r]; [reflexivity|]. cbn [dep_tail]. intros H. apply orb_true_iff in H.
-  destruct H as [H|H]; apply N.eqb_eq in H; subst c; reflexivity.
+  destruct t as [|c r]; [reflexivity|]. cbn [dep_tail]. intros H. rewrite !orb_true_iff in H.
+  destruct H as [[H|H]|H]; apply N.eqb_eq in H; subst c; reflexivity.
 Qed.
 
 (* lexWord followed by the "push ':' and continue lexing" loop recovers a whole path, interior and
@@ -878,3 +878,119 @@ Example raw_space_splits : md_deps (md_parse false [116; 58; 32; 97; 32; 98; 10]
 Proof. vm_compute. reflexivity. Qed.
 Example raw_dollar_is_error : md_parse false [116; 58; 32; 97; 36; 98; 10] = [RuleStart [116] [116]; Dep [97] [97]; Err 3 4; RuleEnd].
 Proof. vm_compute. reflexivity. Qed.
+
+(* ---------- line ends: LF, CRLF, or the end of the file right after the last path ---------- *)
+
+Definition eol_tail (eol : eolchoice) (rest : bytes) : bytes :=
+  match eol with EolNone => [] | _ => 10 :: rest end.
+
+Lemma deps_loop_eol F dlen eol (rest : bytes) :
+  (eol = EolNone -> rest = []) ->
+  deps_loop (S F) dlen (eol_bytes eol ++ rest) = ([], eol_tail eol rest).
+Proof. intros H. destruct eol; [reflexivity | reflexivity | rewrite (H eq_refl); reflexivity]. Qed.
+
+Lemma eol_dep_tail eol (rest : bytes) : (eol = EolNone -> rest = []) -> dep_tail (eol_bytes eol ++ rest) = true.
+Proof. intros H. destruct eol; [reflexivity | reflexivity | rewrite (H eq_refl); reflexivity]. Qed.
+
+Lemma md_write_eol_split t ps sep eol (rest : bytes) :
+  md_write_eol t ps sep eol ++ rest = md_escape t ++ 58 :: deps_text sep ps ++ eol_bytes eol ++ rest.
+Proof. unfold md_write_eol, deps_text. rewrite <- !app_assoc. reflexivity. Qed.
+
+Lemma deps_text_len sep ps : (length ps <= length (deps_text sep ps))%nat.
+Proof.
+  induction ps as [|p ps IH]; [cbn; lia|]. unfold deps_text in *. cbn [flat_map length].
+  assert (1 <= length (sep_bytes sep))%nat by (destruct sep; cbn; lia).
+  rewrite !app_length. lia.
+Qed.
+
+Lemma rules_loop_eol_tail F ign dlen eol (rest : bytes) :
+  rules_loop F ign dlen (eol_tail eol rest) = rules_loop F ign dlen (match eol with EolNone => [] | _ => rest end).
+Proof. destruct eol; cbn [eol_tail]; try apply rules_loop_nl; reflexivity. Qed.
+
+(* one written rule with any line end, followed by anything (by nothing when the line end is missing) *)
+Lemma rules_loop_write_eol F ign dlen t ps sep eol (rest : bytes) :
+  wf_target t = true -> forallb wf_path ps = true -> (eol = EolNone -> rest = []) ->
+  rules_loop (S F) ign dlen (md_write_eol t ps sep eol ++ rest) =
+  RuleStart (md_escape t) t :: dep_events ps ++ RuleEnd :: (if ign then [] else rules_loop F ign dlen rest).
+Proof.
+  intros Ht Hps He. rewrite md_write_eol_split, (rules_loop_target F ign dlen t _ Ht).
+  set (Z := eol_bytes eol ++ rest).
+  pose proof (deps_text_len sep ps) as Hl.
+  replace (S (length (deps_text sep ps ++ Z))) with (length ps + S (length (deps_text sep ps ++ Z) - length ps))%nat
+    by (rewrite app_length; lia).
+  rewrite (deps_loop_write_gen sep ps _ dlen Z Hps (eol_dep_tail eol rest He)).
+  unfold Z. rewrite (deps_loop_eol _ dlen eol rest He). cbn [fst snd]. rewrite app_nil_r.
+  rewrite rules_loop_eol_tail.
+  destruct eol; try reflexivity. rewrite (He eq_refl). reflexivity.
+Qed.
+
+Theorem md_roundtrip_eol : forall target paths sep eol,
+  wf_target target = true -> forallb wf_path paths = true ->
+  md_deps (md_parse false (md_write_eol target paths sep eol)) = paths /\
+  md_has_error (md_parse false (md_write_eol target paths sep eol)) = false.
+Proof.
+  intros t ps sep eol Ht Hps. unfold md_parse.
+  pose proof (rules_loop_write_eol (length (md_write_eol t ps sep eol)) false (length (md_write_eol t ps sep eol)) t ps sep eol []
+                Ht Hps (fun _ => eq_refl)) as H.
+  rewrite app_nil_r in H. rewrite H.
+  assert (Hl : (1 <= length (md_write_eol t ps sep eol))%nat).
+  { unfold md_write_eol. rewrite !app_length. cbn [length]. lia. }
+  destruct (length (md_write_eol t ps sep eol)) as [|n]; [lia|]. cbn [rules_loop skip_ws].
+  change (RuleStart (md_escape t) t :: dep_events ps ++ [RuleEnd]) with ([RuleStart (md_escape t) t] ++ dep_events ps ++ [RuleEnd]).
+  split.
+  - rewrite !md_deps_app, md_deps_dep_events. cbn. apply app_nil_r.
+  - cbn [app]. unfold md_has_error at 1. cbn [existsb orb]. fold (md_has_error (dep_events ps ++ [RuleEnd])).
+    rewrite md_has_error_dep_events. reflexivity.
+Qed.
+
+(* several rules, each ended by LF or CRLF, then a last rule with any line end *)
+Definition rule_eol (r : bytes * list bytes * sepchoice * bool) : eolchoice := if snd r then EolCRLF else EolLF.
+Definition md_write_rules_eol (rules : list (bytes * list bytes * sepchoice * bool)) : bytes :=
+  flat_map (fun r => md_write_eol (rule_target (fst r)) (rule_paths (fst r)) (snd (fst r)) (rule_eol r)) rules.
+
+Lemma rules_loop_write_rules_eol rules : forall F dlen (rest : bytes),
+  forallb (fun r => wf_rule (fst r)) rules = true ->
+  rules_loop (length rules + F) false dlen (md_write_rules_eol rules ++ rest) =
+  flat_map (fun r => rule_events (fst r)) rules ++ rules_loop F false dlen rest.
+Proof.
+  induction rules as [|r rs IH]; intros F dlen rest Hr; [reflexivity|].
+  cbn [forallb] in Hr. apply andb_true_iff in Hr. destruct Hr as [Hr Hrs].
+  unfold wf_rule in Hr. apply andb_true_iff in Hr. destruct Hr as [Ht Hps].
+  unfold md_write_rules_eol. cbn [flat_map]. fold (md_write_rules_eol rs). rewrite <- app_assoc. cbn [length plus].
+  rewrite (rules_loop_write_eol _ false dlen _ _ (snd (fst r)) (rule_eol r) _ Ht Hps).
+  - rewrite (IH F dlen rest Hrs). unfold rule_events at 2. cbn [app]. rewrite <- !app_assoc. reflexivity.
+  - unfold rule_eol. destruct (snd r); discriminate.
+Qed.
+
+Theorem md_multi_rule_eol : forall rules target paths sep eol,
+  forallb (fun r => wf_rule (fst r)) rules = true -> wf_target target = true -> forallb wf_path paths = true ->
+  md_deps (md_parse false (md_write_rules_eol rules ++ md_write_eol target paths sep eol)) =
+  flat_map (fun r => rule_paths (fst r)) rules ++ paths.
+Proof.
+  intros rules t ps sep eol Hr Ht Hps. unfold md_parse.
+  set (d := md_write_rules_eol rules ++ md_write_eol t ps sep eol).
+  assert (Hl : (length rules + 1 <= length d)%nat).
+  { unfold d. rewrite app_length.
+    assert (length rules <= length (md_write_rules_eol rules))%nat.
+    { clear. induction rules as [|r rs IH]; [cbn; lia|]. unfold md_write_rules_eol in *. cbn [flat_map].
+      rewrite app_length. unfold md_write_eol at 1. rewrite !app_length. cbn [length]. lia. }
+    assert (1 <= length (md_write_eol t ps sep eol))%nat by (unfold md_write_eol; rewrite !app_length; cbn [length]; lia).
+    lia. }
+  replace (S (length d)) with (length rules + S (length d - length rules))%nat by lia.
+  unfold d at 2. rewrite (rules_loop_write_rules_eol rules _ (length d) _ Hr).
+  pose proof (rules_loop_write_eol (length d - length rules) false (length d) t ps sep eol [] Ht Hps (fun _ => eq_refl)) as H.
+  rewrite app_nil_r in H. rewrite H.
+  destruct (length d - length rules)%nat as [|n] eqn:E; [lia|]. cbn [rules_loop skip_ws].
+  rewrite md_deps_app. f_equal.
+  - clear. induction rules as [|r rs IH]; [reflexivity|]. cbn [flat_map]. rewrite md_deps_app, md_deps_rule_events, IH. reflexivity.
+  - change (RuleStart (md_escape t) t :: dep_events ps ++ [RuleEnd]) with ([RuleStart (md_escape t) t] ++ dep_events ps ++ [RuleEnd]).
+    rewrite !md_deps_app, md_deps_dep_events. cbn. apply app_nil_r.
+Qed.
+
+(* two rules ended by CRLF, the last path followed by the end of the file *)
+Example md_multi_rule_eol_instance :
+  md_write_rules_eol [([116], [[97; 32; 98]], SepLF, true)] ++ md_write_eol [117] [[99; 58]; [100]] SepSpace EolNone =
+    [116; 58; 32; 92; 10; 32; 97; 92; 32; 98; 13; 10; 117; 58; 32; 99; 58; 32; 100] /\
+  md_deps (md_parse false (md_write_rules_eol [([116], [[97; 32; 98]], SepLF, true)] ++ md_write_eol [117] [[99; 58]; [100]] SepSpace EolNone))
+    = [[97; 32; 98]; [99; 58]; [100]].
+Proof. vm_compute. split; reflexivity. Qed.
